@@ -116,7 +116,9 @@ def apply_op(u, name, args):
     if name == "parent":
         return u.parent
     if name == "joinpath":
-        return u.joinpath(*args[0], encoded=args[1])
+        import sys
+        # equal arguments are the SAME object, as when a caller passes one variable twice
+        return u.joinpath(*[sys.intern(a) if isinstance(a, str) else a for a in args[0]], encoded=args[1])
     if name == "div":
         return u / args[0]
     if name == "origin":
@@ -170,29 +172,45 @@ def att(f):
         return _exn(e)
 
 
+RAW = [
+    lambda u: str(u), lambda u: u.scheme, lambda u: u.raw_authority,
+    lambda u: u.raw_user, lambda u: u.raw_password, lambda u: u.raw_host,
+    lambda u: u.explicit_port, lambda u: u.port,
+    lambda u: u.raw_path, lambda u: u.raw_query_string, lambda u: u.raw_fragment,
+    lambda u: u.host_subcomponent, lambda u: u.host_port_subcomponent,
+    lambda u: u.is_default_port(), lambda u: u.absolute,
+    lambda u: list(u.raw_parts), lambda u: u.raw_name, lambda u: u.raw_suffix,
+    lambda u: list(u.raw_suffixes), lambda u: u.raw_path_qs,
+    lambda u: bytes(u).decode("ascii"),
+]
+DEC = [
+    lambda u: u.user, lambda u: u.password, lambda u: u.host,
+    lambda u: u.path, lambda u: u.path_safe, lambda u: u.query_string,
+    lambda u: [[k, v] for k, v in u.query.items()],
+    lambda u: u.fragment, lambda u: list(u.parts), lambda u: u.name, lambda u: u.suffix,
+    lambda u: list(u.suffixes), lambda u: u.authority, lambda u: u.path_qs,
+    lambda u: u.human_repr(),
+]
+
+
 def observe_raw(u):
-    return [
-        att(lambda: str(u)), att(lambda: u.scheme), att(lambda: u.raw_authority),
-        att(lambda: u.raw_user), att(lambda: u.raw_password), att(lambda: u.raw_host),
-        att(lambda: u.explicit_port), att(lambda: u.port),
-        att(lambda: u.raw_path), att(lambda: u.raw_query_string), att(lambda: u.raw_fragment),
-        att(lambda: u.host_subcomponent), att(lambda: u.host_port_subcomponent),
-        att(lambda: u.is_default_port()), att(lambda: u.absolute),
-        att(lambda: list(u.raw_parts)), att(lambda: u.raw_name), att(lambda: u.raw_suffix),
-        att(lambda: list(u.raw_suffixes)), att(lambda: u.raw_path_qs),
-        att(lambda: bytes(u).decode("ascii")),
-    ]
+    return [att(lambda f=f: f(u)) for f in RAW]
 
 
 def observe_dec(u):
-    return [
-        att(lambda: u.user), att(lambda: u.password), att(lambda: u.host),
-        att(lambda: u.path), att(lambda: u.path_safe), att(lambda: u.query_string),
-        att(lambda: [[k, v] for k, v in u.query.items()]),
-        att(lambda: u.fragment), att(lambda: list(u.parts)), att(lambda: u.name), att(lambda: u.suffix),
-        att(lambda: list(u.suffixes)), att(lambda: u.authority), att(lambda: u.path_qs),
-        att(lambda: u.human_repr()),
-    ]
+    return [att(lambda f=f: f(u)) for f in DEC]
+
+
+def observe_fresh(profile, prog):
+    """every accessor read on its OWN fresh copy of the result (unpickled: nothing pre-computed, nothing read
+    before), so that each accessor is once the first thing asked of an object"""
+    u = run_prog(prog)[-1]
+    fs = RAW if profile == 0 else DEC if profile == 1 else RAW + DEC
+    out = []
+    for f in fs:
+        c = att(lambda: pickle.loads(pickle.dumps(u)))
+        out.append(c if isinstance(c, Exn) else att(lambda f=f, c=c: f(c)))
+    return out
 
 
 def observe(profile, prog):
@@ -530,6 +548,7 @@ def cache_api_probe(sizes, text):
 
 
 def register(fn):
+    fn(observe_fresh)
     fn(cache_api_probe)
     fn(history_run)
     fn(threads_run)
